@@ -26,6 +26,12 @@ from pyanalyze.error_code import ErrorCode  # noqa: E402
 from pyanalyze.name_check_visitor import ClassAttributeChecker, NameCheckVisitor  # noqa: E402
 from pyanalyze.value import Value  # noqa: E402
 
+from pyanalyze.extensions import patch_typing_overload  # noqa: E402
+
+# generated modules are exec'd before the visitor is constructed: make sure `typing.overload`
+# already is pyanalyze's recording decorator (the CLI does this in prepare_constructor_kwargs)
+patch_typing_overload()
+
 assert os.path.realpath(pyanalyze.__file__).startswith(os.path.realpath(REPO)), (
     pyanalyze.__file__,
     REPO,
